@@ -853,7 +853,7 @@ impl ThetaSketch {
     /// Verification hook: offers a chosen 63-bit hash value through the same screen-and-insert
     /// path that [`ThetaSketch::update`] takes after hashing.
     pub fn verif_insert_hash(&mut self, hash: u64) {
-        let hash = if hash >= self.table.theta() { 0 } else { hash };
+        let hash = self.table.screen(hash);
         if hash != 0 {
             self.table.try_insert(hash);
         }
